@@ -75,6 +75,7 @@ Section WalletProofs.
   Local Notation create := (@Wallet.create A K M P H F Nm PW kdf).
   Local Notation memA := (Wallet.memA A_eqb).
   Local Notation AD m := (fun i : N => addr (derive m i)).
+  Local Notation gen_chain := (Wallet.gen_chain derive addr).
 
   Lemma memA_In : forall a l, memA a l = true <-> In a l.
   Proof.
@@ -313,21 +314,10 @@ Section WalletProofs.
   Qed.
 
   (* ---- the generated keys along any run ------------------------------------------------ *)
-  Fixpoint gen_chain (m : M) (lo : N) (l : list (gen_event A K M P H F Nm)) (hi : N) : Prop :=
-    match l with
-    | [] => lo = hi
-    | e :: t =>
-        maxidx (g_pre e) = lo /\ lo < g_idx e /\
-        g_addr e = addr (derive m (g_idx e)) /\
-        ~ In (g_addr e) (addrs (g_pre e)) /\
-        (forall j, lo < j < g_idx e -> In (addr (derive m j)) (imported (g_pre e))) /\
-        gen_chain m (g_idx e) t hi
-    end.
-
   Lemma gen_trace_chain : forall ops s,
     Inv s -> gen_chain (mdk s) (maxidx s) (gen_trace s ops) (maxidx (run s ops)).
   Proof.
-    induction ops as [|o ops IH]; intros s HI; cbn [Wallet.gen_trace Wallet.run gen_chain]; auto.
+    induction ops as [|o ops IH]; intros s HI; cbn [Wallet.gen_trace Wallet.run Wallet.gen_chain]; auto.
     pose proof (step_inv s o HI) as HI'. pose proof (step_frame s o) as HF. cbn zeta in HF.
     destruct (step s o) as [s' r] eqn:Hs. cbn [fst snd] in *.
     destruct HF as [Hm [_ Hmax]].
@@ -340,24 +330,24 @@ Section WalletProofs.
     destruct r as [|a| | |e]; try (apply Hsame; intros; discriminate).
     destruct (generate_spec _ _ _ _ HI Hs) as [n [_ [Hlt [_ [Ha [Hnin [Hskip Hs']]]]]]].
     assert (Hn : maxidx s' = n) by (rewrite Hs'; reflexivity). rewrite Hn in *.
-    cbn [gen_chain g_pre g_idx g_addr]. repeat split; auto.
+    cbn [Wallet.gen_chain g_pre g_idx g_addr]. repeat split; auto.
   Qed.
 
-  Lemma gen_chain_bounds : forall m l lo hi,
+  Lemma gen_chain_bounds : forall m (l : list (gen_event A K M P H F Nm)) lo hi,
     gen_chain m lo l hi -> lo <= hi /\
     Forall (fun e => lo < g_idx e <= hi /\ g_addr e = addr (derive m (g_idx e))) l.
   Proof.
-    intros m l. induction l as [|e t IH]; intros lo hi Hc; cbn [gen_chain] in Hc.
+    intros m l. induction l as [|e t IH]; intros lo hi Hc; cbn [Wallet.gen_chain] in Hc.
     - subst. split; [lia|constructor].
     - destruct Hc as [_ [Hlt [Ha [_ [_ Hc]]]]]. apply IH in Hc. destruct Hc as [Hle Hall].
       split; [lia|]. constructor; [split; [lia|exact Ha]|].
       eapply Forall_impl; [|exact Hall]. cbn. intros e' [H1 H2]. split; [lia|exact H2].
   Qed.
 
-  Lemma gen_chain_sorted : forall m l lo hi,
+  Lemma gen_chain_sorted : forall m (l : list (gen_event A K M P H F Nm)) lo hi,
     gen_chain m lo l hi -> StronglySorted (fun e1 e2 => g_idx e1 < g_idx e2) l.
   Proof.
-    intros m l. induction l as [|e t IH]; intros lo hi Hc; cbn [gen_chain] in Hc; constructor.
+    intros m l. induction l as [|e t IH]; intros lo hi Hc; cbn [Wallet.gen_chain] in Hc; constructor.
     - destruct Hc as [_ [_ [_ [_ [_ Hc]]]]]. eapply IH; exact Hc.
     - destruct Hc as [_ [_ [_ [_ [_ Hc]]]]]. apply gen_chain_bounds in Hc.
       destruct Hc as [_ Hall]. eapply Forall_impl; [|exact Hall]. cbn. intros e' [H1 _]. lia.
@@ -457,4 +447,86 @@ Section WalletProofs.
     - unfold Wallet.fetch in *. destruct (find_key A_eqb a (keys s)); [destruct (inited s)|]; congruence.
     - unfold Wallet.fetch in *. destruct (find_key A_eqb a (keys s)); [destruct (inited s)|]; congruence.
   Qed.
+
+  (* ==== the statements used by props/C46.v ================================================ *)
+  Theorem no_duplicate_address : forall m pw nm ops,
+    NoDup (addrs (run (create m pw nm) ops)) /\ NoDup (maddrs (run (create m pw nm) ops)).
+  Proof.
+    intros. pose proof (run_inv ops _ (create_inv m pw nm)) as HI.
+    split; [apply (inv_nodup _ HI)|apply (inv_mnodup _ HI)].
+  Qed.
+
+  Theorem generated_are_derived : forall m pw nm ops,
+    gen_chain m 0 (gen_trace (create m pw nm) ops) (maxidx (run (create m pw nm) ops)).
+  Proof. intros. apply (gen_trace_chain ops _ (create_inv m pw nm)). Qed.
+
+  Theorem generated_strictly_increasing : forall m pw nm ops,
+    StronglySorted (fun e1 e2 => g_idx e1 < g_idx e2) (gen_trace (create m pw nm) ops) /\
+    Forall (fun e => 1 <= g_idx e <= maxidx (run (create m pw nm) ops) /\
+                     g_addr e = addr (derive m (g_idx e))) (gen_trace (create m pw nm) ops).
+  Proof.
+    intros. pose proof (generated_are_derived m pw nm ops) as Hc. split.
+    - eapply gen_chain_sorted. exact Hc.
+    - apply gen_chain_bounds in Hc. destruct Hc as [_ Hall].
+      eapply Forall_impl; [|exact Hall]. cbn. intros e [H1 H2]. split; [lia|exact H2].
+  Qed.
+
+  (* a wallet created from the same MDK that only generates: indices 1..n in order *)
+  Definition restore_ops (pw : PW) (n : nat) : list op := OInit pw :: repeat (OGenerate false) n.
+
+  Theorem restore_fresh : forall m pw nm n,
+    N.of_nat n < sqliteIntOverflow ->
+    map (fun e => (g_idx e, g_addr e)) (gen_trace (create m pw nm) (restore_ops pw n)) =
+    map (fun i => (i, addr (derive m i))) (seqN 1 n).
+  Proof.
+    intros m pw nm n Hn. unfold restore_ops. cbn [Wallet.gen_trace Wallet.step].
+    assert (Hok : slow_ok (create m pw nm) pw = true).
+    { unfold Wallet.slow_ok, Wallet.create. cbn [pwh]. apply H_eqb_spec. reflexivity. }
+    rewrite Hok.
+    apply (generate_dense n (set_hpw (create m pw nm) (Some (kdff pw))) 0); auto.
+  Qed.
+
+  Theorem restore_regenerates : forall m pw nm ops e pw' nm' n,
+    In e (gen_trace (create m pw nm) ops) ->
+    g_idx e <= N.of_nat n -> N.of_nat n < sqliteIntOverflow ->
+    1 <= g_idx e <= maxidx (run (create m pw nm) ops) /\
+    nth_error (map g_addr (gen_trace (create m pw' nm') (restore_ops pw' n)))
+              (N.to_nat (g_idx e) - 1) = Some (g_addr e).
+  Proof.
+    intros m pw nm ops e pw' nm' n Hin Hle Hn.
+    destruct (generated_strictly_increasing m pw nm ops) as [_ Hall].
+    rewrite Forall_forall in Hall. destruct (Hall e Hin) as [Hrange Ha].
+    split; [exact Hrange|].
+    pose proof (restore_fresh m pw' nm' n Hn) as Hf.
+    apply (f_equal (map snd)) in Hf. rewrite !map_map in Hf. cbn [snd] in Hf.
+    change (map g_addr (gen_trace (create m pw' nm') (restore_ops pw' n)))
+      with (map (fun x => g_addr x) (gen_trace (create m pw' nm') (restore_ops pw' n))).
+    rewrite Hf, Ha.
+    rewrite nth_error_map, seqN_nth by lia.
+    cbn [option_map]. do 3 f_equal. lia.
+  Qed.
+
+  Theorem wrong_password_fails : forall m pw0 nm ops o pw,
+    op_pw o = Some pw -> kdf pw <> kdf pw0 ->
+    fst (step (run (create m pw0 nm) ops) o) = run (create m pw0 nm) ops /\
+    is_err (snd (step (run (create m pw0 nm) ops) o)) = true.
+  Proof.
+    intros m pw0 nm ops o pw Hop Hne.
+    apply (wrong_password_step _ o pw); auto.
+    - apply run_inv. apply create_inv.
+    - destruct (run_frame ops (create m pw0 nm)) as [_ ->]. exact Hne.
+  Qed.
+
+  Theorem export_right_password_reachable : forall m pw0 nm ops a pw,
+    let s := run (create m pw0 nm) ops in
+    inited s = true -> In a (addrs s) -> pw_ok s pw = true ->
+    exists k, step s (OExport a pw) = (s, RKey k) /\ addr k = a.
+  Proof.
+    intros m pw0 nm ops a pw s. apply export_right_password.
+    apply run_inv. apply create_inv.
+  Qed.
+
+  Theorem fuel_is_enough : forall m pw0 nm ops o,
+    snd (step (run (create m pw0 nm) ops) o) <> RErr EOutOfFuel.
+  Proof. intros. apply never_out_of_fuel. apply run_inv. apply create_inv. Qed.
 End WalletProofs.
